@@ -14,6 +14,7 @@ Statement of the property, clause by clause:
         C10_error_is_first_mismatch
   (b) the decision is identical for a freshly compiled kernel and one loaded from the cache
         C10_fresh_eq_cached, C10_fresh_eq_cached_signature, C10_zero_parameter_kernel
+      what the parser records for a parameter: C10_array_parameter_flatten, C10_pointer_parameter
   (c) validation never traps (no division by zero in isCyclic, no out-of-bounds read)
         C10_no_trap, C10_cast_no_trap
   (d) obligations on the *current* source, from the regenerated tables
@@ -158,6 +159,26 @@ theorem metaOfSignature_facts (kname : String) (ps : List Param) :
   simp only [List.nil_append, List.mem_map] at ha
   obtain ⟨p, _, rfl⟩ := ha
   exact VType.dtype_wf p.vtype
+
+/-- The element types of an array parameter, as the parser records them: the element types of the
+    declared type (after the `long` adjustment) repeated once per entry, an unknown extent counting
+    one entry — `T x[a][b]` flattens to `a*b` copies of `T`'s flattening, `T x[n]` (n not
+    constant) to one.  With `C10_cast_spec` this is the rule the end-to-end oracle applies. -/
+theorem C10_array_parameter_flatten (ty : OType) (longQ ptrs : Nat) (arrays : List (Option Int)) :
+    (VType.mk ty longQ ptrs arrays).dtype.flatten =
+      repeatList (extProd arrays) (VType.mk ty longQ ptrs []).dtype.flatten := by
+  simp only [VType.dtype, List.foldl_nil]
+  exact flatten_foldl_tuple C10_code_shape.2.2.2.2.2.2.2 arrays _
+
+/-- ... and it is a pointer parameter iff it has a `*`, an array extent, or its typedef does. -/
+theorem C10_pointer_parameter (ty : OType) (longQ ptrs : Nat) (arrays : List (Option Int)) :
+    (VType.mk ty longQ ptrs arrays).isPointerType = (ptrs != 0 || arrays.length != 0 || ty.isPointerType) := by
+  simp [VType.isPointerType]
+
+example : (VType.mk (.prim "float") 0 0 [some 2, none, some 3]).dtype.flatten
+    = repeatList 6 [Leaf.prim "float"] := by
+  rw [C10_array_parameter_flatten]
+  rfl
 
 /-- Clause (b) for every kernel signature (any number of parameters, including none; primitives,
     vectors, typedef chains, pointers, arrays of constant or non-constant extent): the kernel
